@@ -302,8 +302,8 @@ def fam_rebase(g, kind="plain"):
     if after_abort:
         # variant: the first attempt stops on a conflict and is aborted, the second one is seen through
         pos, n = "conflict", 1
-    yield from fam_feature_branch(g, n, path, rewritten=True,
-                                  distinct_files=(kind == "interactive" and n > 1 and rng.random() < 0.4))
+    distinct = kind == "interactive" and n > 1 and rng.random() < 0.4
+    yield from fam_feature_branch(g, n, path, rewritten=True, distinct_files=distinct)
     yield g.git("checkout", "-q", base_branch)
     for _ in range(rng.randint(1, 2)):
         yield upstream_change(g, pos, path)
@@ -331,6 +331,9 @@ def fam_rebase(g, kind="plain"):
                  "squash:1;squash:2", "reword:0", "fixup:%d" % (n - 1)]
         if g.gated("rebase_i_drop"):
             plans = [p for p in plans if not p.startswith("drop")]
+        if g.gated("hooks_rebase_reorder_new_file") and distinct:
+            # listed (C13 only): re-ordering commits of which one creates a file loses that file's attestation in hooks mode
+            plans = [p for p in plans if not p.startswith(("reverse", "swap"))]
         plan = rng.choice(plans)
         g.ex.probe("rebase_i." + plan.split(":")[0])
         extra = rng.choice([[], [], [], ["--keep-base"], ["--keep-base"], ["--rebase-merges"]])
